@@ -732,6 +732,55 @@ func genNatHole() ([]byte, error) {
 	} else {
 		xClose = []string{"?parse error"}
 	}
+	// pkg/transport/message.go: the shape of transporterImpl.Send: the cases of its select (or a plain channel send)
+	var trSend []string
+	if ft, err := parse("pkg/transport/message.go"); err == nil {
+		for _, d := range ft.Decls {
+			fd, ok := d.(*ast.FuncDecl)
+			if !ok || fd.Recv == nil || fd.Body == nil || fd.Name.Name != "Send" || !strings.Contains(src(fd.Recv.List[0].Type), "transporterImpl") {
+				continue
+			}
+			chanName := func(e ast.Expr) string {
+				if sel, ok := e.(*ast.SelectorExpr); ok {
+					return sel.Sel.Name
+				}
+				return "?" + src(e)
+			}
+			inSelect := map[ast.Stmt]bool{}
+			ast.Inspect(fd.Body, func(n ast.Node) bool {
+				switch x := n.(type) {
+				case *ast.SelectStmt:
+					for _, c := range x.Body.List {
+						cc := c.(*ast.CommClause)
+						switch cm := cc.Comm.(type) {
+						case nil:
+							trSend = append(trSend, "default")
+						case *ast.SendStmt:
+							inSelect[cm] = true
+							trSend = append(trSend, "send:"+chanName(cm.Chan))
+						case *ast.ExprStmt:
+							if u, ok := cm.X.(*ast.UnaryExpr); ok && u.Op == token.ARROW {
+								trSend = append(trSend, "recv:"+chanName(u.X))
+							} else {
+								trSend = append(trSend, "?"+src(cm))
+							}
+						case *ast.AssignStmt:
+							trSend = append(trSend, "recv-assign:"+src(cm))
+						default:
+							trSend = append(trSend, "?"+src(cc.Comm))
+						}
+					}
+				case *ast.SendStmt:
+					if !inSelect[x] {
+						trSend = append(trSend, "plain-send:"+chanName(x.Chan))
+					}
+				}
+				return true
+			})
+		}
+	} else {
+		trSend = []string{"?parse error"}
+	}
 	coqStrList := func(l []string) string {
 		var q []string
 		for _, x := range l {
@@ -791,6 +840,7 @@ func genNatHole() ([]byte, error) {
 	fmt.Fprintf(&b, "Definition nh_vread_timeout : nh_expr := %s%%Z.\n", vRead)
 	fmt.Fprintf(&b, "Definition nh_cread_timeout : nh_expr := %s%%Z.\n", cRead)
 	fmt.Fprintf(&b, "Definition nh_staggers : list (string * Z) := [%s]%%Z.\n", strings.Join(staggers, "; "))
+	fmt.Fprintf(&b, "Definition nh_tr_send : list string := %s.\n", coqStrList(trSend))
 	fmt.Fprintf(&b, "Definition nh_xtcp_close : list string := %s.\n", coqStrList(xClose))
 	fmt.Fprintf(&b, "Definition nh_xtcp_run : list string := %s.\n", coqStrList(xRun))
 	fmt.Fprintf(&b, "Definition nh_xtcp_loop_calls : list string := %s.\n", coqStrList(xLoop))
